@@ -52,6 +52,9 @@ class Modes(Stage):
             lines.append(wire.render(m, dialect))
         while d.chance(0.3):
             lines.append(gen_chatter(d)[:300])
+        if d.chance(0.12):
+            # the capture was saved by an editor / a Windows shell: a byte order mark in front of the program's first line of output
+            lines.insert(0, '\ufeff' + d.choice(['starting up', 'log opened', 'Gtk-Message: hello']))
         final_newline = d.chance(0.7) or lines[-1].strip() == ''
         text = '\n'.join(lines) + ('\n' if final_newline else '')
         data = text.encode('utf-8').replace('\ue000'.encode('utf-8'), b'\xff')
@@ -243,6 +246,7 @@ class Modes(Stage):
         if case.get('exe') and not case['argv']: res.label('program-is-one-word')
         if case.get('via_shell') and not (case.get('exe') and not case['argv']): res.label('program-by-bare-name')
         if '\r' in case['text']: res.label('carriage-return-in-chatter')
+        if case['text'].startswith('\ufeff'): res.label('byte-order-mark-first')
         if any(a.startswith('-') for a in case['argv']): res.label('option-lookalike-argv')
         if case.get('parent_wayland_debug') not in (None, '1'): res.label('parent-WAYLAND_DEBUG-set-otherwise')
         if case.get('linger'): res.label('program-lingers-after-closing-stderr')
